@@ -24,7 +24,8 @@ type batchCase struct {
 	Target int `json:"target"`
 	// Caller: what the caller does with the slice it handed to AddAll: 0 nothing | 1 reuses it afterwards (overwrites every element
 	// and appends to it: the slice has spare capacity) | 2 adds the fields with two AddAll calls (first third, then the rest) and
-	// then overwrites both slices. The builder must have taken copies.
+	// then overwrites both slices. The builder must have taken copies. | 3 adds the first third, asks the builder for its requests, adds
+	// the rest and asks again: the second answer covers all fields.
 	Caller int `json:"caller,omitempty"`
 }
 
@@ -35,6 +36,14 @@ func build(c batchCase) ([]modbus.BuilderRequest, error) {
 	if c.Caller == 2 {
 		k := len(in) / 3
 		b.AddAll(in[:k:k]).AddAll(in[k:])
+	} else if c.Caller == 3 {
+		// the builder is asked for its requests (this target, and another kind) before the remaining fields are added
+		k := len(in) / 3
+		b.AddAll(in[:k:k])
+		_, _ = buildTarget(b, c.Target)
+		_, _ = buildTarget(b, (c.Target+4)%8)
+		b.AddAll(in[k:])
+		return buildTarget(b, c.Target)
 	} else {
 		b.AddAll(in)
 	}
@@ -138,6 +147,8 @@ func runBatch(c batchCase) harness.Result {
 		labels = append(labels, "caller-overwrites-its-slice")
 	case 2:
 		labels = append(labels, "two-AddAll-calls")
+	case 3:
+		labels = append(labels, "built-between-two-AddAll-calls")
 	}
 	{
 		// distinct addresses per target: implementations may switch data structure at a size
@@ -390,7 +401,7 @@ func genBatch(t *rapid.T) batchCase {
 			c.Fields = append(c.Fields, f)
 		}
 	}
-	c.Caller = rapid.SampledFrom([]int{0, 0, 0, 1, 2}).Draw(t, "caller")
+	c.Caller = rapid.SampledFrom([]int{0, 0, 0, 1, 2, 3}).Draw(t, "caller")
 	return c
 }
 
